@@ -70,7 +70,7 @@ inductive Node where
   | caseB (line : Nat) (subject : Expr) (cases : List (Option (List Expr) × List Node))
   | loop (line : Nat) (tablerow : Bool) (var : Bytes) (e : Expr) (mods : LoopMods)
          (body : List Node) (clauses : List (List Node))
-  | cycle (line : Nat) (group : Bytes) (values : List Bytes)
+  | cycle (line : Nat) (group : Bytes) (first : Bytes) (rest : List Bytes)
   | brk (line : Nat)
   | cont (line : Nat)
   | incl (line : Nat) (args : Bytes)
@@ -150,7 +150,7 @@ def compileNode : AST → CRes (List Node)
     else if t.name == nmCycle then do
       let st ← liftParse t.line false (parseStatement kwCycle t.args)
       match st with
-      | .cycle g vs => pure [.cycle t.line g vs]
+      | .cycle g v0 vs => pure [.cycle t.line g v0 vs]
       | _ => .err ⟨t.line, true, .none, .tagSyntax⟩
     else .err ⟨t.line, true, .none, .undefinedTag⟩
   | .block t body clauses => do
@@ -631,7 +631,7 @@ def renderNode (c : RCtx) : Node → M Status
     | [] => loopRun c.P c.cfg.path ⟨line, true⟩ tablerow var e mods bodyM false none
     | [els] => loopRun c.P c.cfg.path ⟨line, true⟩ tablerow var e mods bodyM false (some (renderBlockBody c els))
     | _ :: _ :: _ => loopRun c.P c.cfg.path ⟨line, true⟩ tablerow var e mods bodyM true none
-  | .cycle line group values =>
+  | .cycle line group v0 rest =>
     let loc : Loc := ⟨line, true⟩
     wrapFailAt c.cfg.path loc (do
       let lv ← M.getVar nmForloop
@@ -640,9 +640,7 @@ def renderNode (c : RCtx) : Node → M Status
       | some (cyc, rebuild) =>
         let n := cycleGet cyc group
         M.setVar nmForloop (rebuild (cycleSet cyc group (n + 1)))
-        (match values with
-         | [] => fun _ => .panic "integer divide by zero"  -- excluded by the grammar (at least one value)
-         | _ => writeM (values.getD (n % values.length) []))
+        writeM ((v0 :: rest).getD (n % (rest.length + 1)) v0)
         pure .done)
   | .brk line => pure (.brk (wrapError c.cfg.path (.located (wrapError c.cfg.path (.plain .brk) ⟨line, true⟩)) ⟨line, true⟩))
   | .cont line => pure (.cont (wrapError c.cfg.path (.located (wrapError c.cfg.path (.plain .cont) ⟨line, true⟩)) ⟨line, true⟩))
